@@ -840,3 +840,28 @@ def c09_from_histories(hists, seed):
             s.rx([1, 2], f)
         scs.append(Scenario("c09-g1-%d" % i, s.lines))
     return scs
+
+
+# --------------------------------------------------------------------------- C04 (Linux platform layer)
+def campaign_c04_linux(seed, tier):
+    rng = random.Random(seed ^ 0x4C)
+    scs = []
+    n = 12 if tier == "quick" else 300
+    per = 60
+    v32 = V32 + [100, 99, 199, 4294967200, 1000000000, 2500000000, 100000000, 10000000]
+    for i in range(n):
+        lines = []
+        for _ in range(per):
+            medium = rng.choice([0x10, 0x20, 0x30, 0, 0xFFFFFFFF, 0xFFFFFFEF, rng.randrange(1 << 32)])
+            flags = rng.choice([0x1043, 0x49, 0x8, 0, 0xFFFFFFFF, 0xFFFFFFF7, rng.randrange(1 << 32)])
+            host = bytes(rng.choice([0x41 + rng.randrange(26), rng.randrange(1, 256)]) for _ in range(rng.choice([0, 1, 31, 32, 33, 40, 64, rng.randrange(0, 100)])))
+            lines.append("LIF mac=%s mtu=%d iftype=%d medium=%d speed=%d flags=%d ipv4=%s ipv6=%s host=%s" % (
+                rnd_mac(rng).hex(), rng.choice([576, 1500, 9000, rng.randrange(576, 9217)]),
+                rng.choice(v32) if rng.random() < 0.6 else rng.randrange(1 << 32), medium,
+                rng.choice(v32) if rng.random() < 0.7 else rng.randrange(1 << 32), flags,
+                "-" if rng.random() < 0.2 else bytes(rng.randrange(256) for _ in range(4)).hex(),
+                "-" if rng.random() < 0.2 else bytes(rng.randrange(256) for _ in range(16)).hex(),
+                "!" if rng.random() < 0.1 else (host.hex() or "-")))
+            lines.append("DISC %d" % rng.choice([0, 1]))
+        scs.append(Scenario("c04-linux-%d" % i, lines))
+    return scs
